@@ -85,6 +85,7 @@ def program_for(bp, decl, seed, horizon=HORIZON, with_ic=None, region_mode='rand
         elif z < 0.125:
             params[i]['gift'] = 0.0
     declared = set()
+    post = []
     pending_tre = []
     # read-only questions asked while the model is being put together (they must not change anything): the
     # sectors of a currency zone, a dump of the equations, the information log (which generates full codes early)
@@ -149,8 +150,12 @@ def program_for(bp, decl, seed, horizon=HORIZON, with_ic=None, region_mode='rand
             prog.append({'op': 'AssetWeighting', 'sector': ref(s), 'as': 'dict' if (params[s]['wgt'] * 100) % 2 < 1 else 'list',
                          'weights': [[a, '%0.3f' % (w * (1 + 0.5 * i))] for i, a in enumerate(d['aw'])], 'residual': 'MON'})
         if d['gift'] and k == 'RestOfWorld':
-            prog.append({'op': 'AddVariable', 'sector': ref(s), 'name': 'GIFT', 'desc': 'aid paid (in the numeraire)',
-                         'eqn': '%0.2f' % (100 * params[s]['gift'])})
+            # aid paid by a sector inside the ExternalSector country, tied to a household's lagged wealth whose name is
+            # requested before full codes exist (stated once every sector has been declared)
+            hhs = [i for i, dd in enumerate(secs, 1) if dd['kind'] in ('Household', 'HouseholdWithExpectations')]
+            post.append({'op': 'AddVariable', 'sector': ref(s), 'name': 'GIFT', 'desc': 'aid paid (in the numeraire)',
+                         'eqn': ('%0.2f + 0.01*{%s:LAG_F}' % (100 * params[s]['gift'], ref(hhs[0]))) if hhs
+                         else '%0.2f' % (100 * params[s]['gift'])})
         elif d['gift']:
             # the name of the sector's own lagged wealth is requested before full codes exist: a placeholder
             # embedded in a sector equation (C05)
@@ -166,6 +171,7 @@ def program_for(bp, decl, seed, horizon=HORIZON, with_ic=None, region_mode='rand
             if secs[cb - 1]['tre'] in declared and cb in declared:
                 prog.append({'op': 'SetAttr', 'sector': ref(cb), 'attr': 'Treasury', 'value': '@' + ref(secs[cb - 1]['tre'])})
                 pending_tre.remove(cb)
+    prog.extend(post)
     for i, d in enumerate(secs, 1):
         for m in d.get('late', []):
             prog.append({'op': 'AddMarket', 'sector': ref(i), 'market': ref(m)})
